@@ -419,4 +419,187 @@ theorem mergeMapVals_length (S : Schema) (ei : Nat) (vs : Vals) : ∀ (dst : Val
         rw [hh]
         simp [hb, hl']
 
+/-! ### `clone m = m` for messages stored in ascending field order -/
+
+/-- ascending field numbers at every level of the value tree -/
+def ascNums : List Nat → Bool
+  | [] => true
+  | [_] => true
+  | a :: b :: t => decide (a < b) && ascNums (b :: t)
+
+mutual
+def sortedMsg : Msg → Bool
+  | .mk fs _ => ascNums fs.nums && sortedFields fs
+def sortedFields : Fields → Bool
+  | .nil => true
+  | .cons _ fv tl => sortedFVal fv && sortedFields tl
+def sortedFVal : FVal → Bool
+  | .one v => sortedVal v
+  | .many vs => sortedVals vs
+def sortedVal : Val → Bool
+  | .msg m => sortedMsg m
+  | _ => true
+def sortedVals : Vals → Bool
+  | .nil => true
+  | .cons v tl => sortedVal v && sortedVals tl
+end
+
+theorem ascNums_pairwise : ∀ {l : List Nat}, ascNums l = true → l.Pairwise (· < ·)
+  | [], _ => List.Pairwise.nil
+  | [_], _ => by simp
+  | a :: b :: t, h => by
+    rw [ascNums, Bool.and_eq_true, decide_eq_true_eq] at h
+    have ih0 := ascNums_pairwise h.2
+    have ih := ih0
+    rw [List.pairwise_cons] at ih ⊢
+    refine ⟨?_, ih0⟩
+    intro c hc
+    rw [List.mem_cons] at hc
+    rcases hc with rfl | hc
+    · exact h.1
+    · exact Nat.lt_trans h.1 (ih.1 c hc)
+
+/-- two ascending field lists with the same lookups are the same list -/
+theorem Fields.ext_sorted : ∀ {a b : Fields}, a.Sorted → b.Sorted → (∀ j, a.get? j = b.get? j) → a = b
+  | .nil, .nil, _, _, _ => rfl
+  | .nil, .cons m y t, _, _, h => by
+    have := h m
+    simp [Fields.get?] at this
+  | .cons n x t, .nil, _, _, h => by
+    have := h n
+    simp [Fields.get?] at this
+  | .cons n x t, .cons m y u, ha, hb, h => by
+    unfold Fields.Sorted at ha hb
+    simp only [Fields.nums, List.pairwise_cons] at ha hb
+    have hnt : t.get? n = none := by
+      cases hg : t.get? n with
+      | none => rfl
+      | some _ =>
+        have := (Fields.get?_isSome_iff t n).mp (by rw [hg]; rfl)
+        exact absurd (ha.1 n this) (Nat.lt_irrefl _)
+    have hmu : u.get? m = none := by
+      cases hg : u.get? m with
+      | none => rfl
+      | some _ =>
+        have := (Fields.get?_isSome_iff u m).mp (by rw [hg]; rfl)
+        exact absurd (hb.1 m this) (Nat.lt_irrefl _)
+    have hnm : n = m := by
+      have h1 := h n
+      have h2 := h m
+      simp only [Fields.get?_cons, if_true] at h1 h2
+      by_cases e : n = m
+      · exact e
+      · have e' : ¬ m = n := fun x => e x.symm
+        simp only [e, e', if_false] at h1 h2
+        have hn : n ∈ u.nums := (Fields.get?_isSome_iff u n).mp (by rw [← h1]; rfl)
+        have hm : m ∈ t.nums := (Fields.get?_isSome_iff t m).mp (by rw [h2]; rfl)
+        have := hb.1 n hn
+        have := ha.1 m hm
+        omega
+    subst hnm
+    have hxy : x = y := by
+      have := h n
+      simpa [Fields.get?_cons] using this
+    subst hxy
+    have htu : t = u := by
+      apply Fields.ext_sorted ha.2 hb.2
+      intro j
+      have := h j
+      simp only [Fields.get?_cons] at this
+      by_cases e : n = j
+      · subst e; rw [hnt, hmu]
+      · simpa [e] using this
+    rw [htu]
+
+theorem mapPut_of_none (vs : Vals) (k : Val) (e : Msg) (h : lookupEntry vs k = none) :
+    mapPut vs k e = vs.append (.cons (.msg e) .nil) := by
+  induction vs using Vals.ind with
+  | nil => rfl
+  | cons v tl ih =>
+    cases v with
+    | msg old =>
+      rw [lookupEntry_cons_msg] at h
+      split at h
+      · cases h
+      · rename_i hne
+        rw [mapPut, Vals.append]
+        split
+        · rename_i k0 hk0
+          have hb : valBEq k k0 = false := by
+            unfold entryHasKey at hne
+            rw [hk0] at hne
+            simpa using hne
+          simp [hb, ih h]
+        · simp [ih h]
+    | num n =>
+      rw [lookupEntry_cons_num] at h
+      rw [mapPut, Vals.append, ih h]
+      intro old hh; cases hh
+    | bytes b =>
+      rw [lookupEntry_cons_bytes] at h
+      rw [mapPut, Vals.append, ih h]
+      intro old hh; cases hh
+
+theorem Vals.append_cons_assoc (a : Vals) (v : Val) (b : Vals) :
+    (a.append (.cons v .nil)).append b = a.append (.cons v b) := by
+  induction a using Vals.ind with
+  | nil => rfl
+  | cons x t ih => simp only [Vals.append, ih]
+
+theorem lookupEntry_append_single (a : Vals) (e : Msg) (k : Val) :
+    lookupEntry (a.append (.cons (.msg e) .nil)) k =
+      match lookupEntry a k with
+      | some x => some x
+      | none => if entryHasKey e k then some e else none := by
+  induction a using Vals.ind with
+  | nil => rw [Vals.append, lookupEntry_cons_msg]; simp [lookupEntry]
+  | cons x t ih =>
+    cases x with
+    | msg old =>
+      rw [Vals.append, lookupEntry_cons_msg, lookupEntry_cons_msg, ih]
+      split <;> rfl
+    | num n => rw [Vals.append, lookupEntry_cons_num, lookupEntry_cons_num, ih]
+    | bytes b => rw [Vals.append, lookupEntry_cons_bytes, lookupEntry_cons_bytes, ih]
+
+/-- when every entry is its own clone and keys are fresh, map merge appends the source entries -/
+theorem mergeMapVals_eq_append (S : Schema) (ei : Nat) (vs : Vals) : ∀ (dst : Vals),
+    EntriesOK S ei vs → (∀ e, Val.msg e ∈ vs.toList → clone S ei e = e) →
+    (∀ k e, lookupEntry vs k = some e → lookupEntry dst k = none) →
+    mergeMapVals S ei dst vs = dst.append vs := by
+  induction vs using Vals.ind with
+  | nil =>
+    intro dst _ _ _
+    rw [mergeMapVals]
+    have : ∀ d : Vals, d = d.append .nil := by
+      intro d
+      induction d using Vals.ind with
+      | nil => rfl
+      | cons x t ih => rw [Vals.append, ← ih]
+    exact this dst
+  | cons v tl ih =>
+    intro dst h hc hd
+    obtain ⟨⟨e, k, rfl, hk, hs, hck, hl⟩, htl⟩ := h
+    have hke : entryHasKey e k = true := (entryHasKey_iff _ _).mpr ⟨hk, hs⟩
+    have hdk : lookupEntry dst k = none := hd k e (by rw [lookupEntry_cons_msg, hke]; rfl)
+    have hce : clone S ei e = e := hc e (by simp [Vals.toList])
+    rw [mergeMapVals_cons_msg S ei dst e tl k hk, hce, mapPut_of_none dst k e hdk,
+      ih _ htl (fun e' he' => hc e' (by simp [Vals.toList, he'])), Vals.append_cons_assoc]
+    intro k' e' hl'
+    rw [lookupEntry_append_single]
+    have hne : entryHasKey e k' = false := by
+      cases hh : entryHasKey e k' with
+      | false => rfl
+      | true =>
+        have := ((entryHasKey_iff _ _).mp hh).1
+        rw [hk] at this
+        cases this
+        rw [hl] at hl'
+        cases hl'
+    have : lookupEntry dst k' = none := by
+      apply hd k' e'
+      rw [lookupEntry_cons_msg, hne]
+      exact hl'
+    rw [this, hne]
+    rfl
+
 end Pb
